@@ -28,7 +28,9 @@ From Low Require Import Lib.MachInt Lib.BitSeq Model.SectionWriter Spec.SectionW
   Proofs.SectionWriterProofs Proofs.SectionWriterCalls Proofs.MemFileProofs Proofs.SectionIOProofs
   Proofs.SectionStreamProofs Proofs.SectionCountProofs Proofs.SectionPairProofs.
 From Low Require Import Lib.Bytes Model.Pbcmpl Spec.PbcmplSpec Model.PbcmplFile.
-From Low Require Proofs.PbcmplStream Proofs.PbcmplFileProofs Proofs.PbcmplFileRoundTrip Proofs.PbcmplFileFrames.
+From Low Require Import Spec.PbcmplFileSpec.
+From Low Require Proofs.PbcmplStream Proofs.PbcmplFileProofs Proofs.PbcmplFileRoundTrip Proofs.PbcmplFileFrames
+  Proofs.PbcmplFileStream.
 Import ListNotations.
 Open Scope Z_scope.
 
@@ -528,6 +530,46 @@ Theorem C18_pbcmpl_frames_in_one_file : forall kind B ps f,
 Proof. exact PFF.marshal_all_unmarshal_each. Qed.
 Print Assumptions C18_pbcmpl_frames_in_one_file.
 
+Module PFS := Low.Proofs.PbcmplFileStream.
+
+(** Unmarshal from ANY position of an AtToReader(f, o) computes the specification on the bytes that
+    are left and leaves the reader exactly n bytes further ([SIO.RR o s pos]: the reader state [s]
+    stands at position [pos] of the stream from o; [PFP.rem f o pos]: the bytes left there) *)
+Theorem C18_pbcmpl_unmarshal_advances : forall (Msg : Type) (dec : list Z -> option Msg) grow,
+  (forall c, 0 < c -> c < grow c) ->
+  forall f o s pos fuel,
+  0 <= o -> zlen f < 2^63 - 1 -> bytes_ok f -> Proofs.SectionIOProofs.RR o s pos ->
+  (length f + 2 <= fuel)%nat ->
+  exists n ver err m s' left,
+    Unmarshal dec (fread_r f) grow fuel s = Some (n, ver, err, m, s')
+    /\ spec_Unmarshal dec EEOF (PFP.rem f o pos) PFP.t_eof = (n, ver, err, m, left)
+    /\ Proofs.SectionIOProofs.RR o s' (pos + n) /\ left = PFP.rem f o (pos + n).
+Proof. exact PFP.Unmarshal_file_spec_at. Qed.
+Print Assumptions C18_pbcmpl_unmarshal_advances.
+
+(** hence repeated Unmarshal through ONE AtToReader(f, o) reads the file as a stream of frames:
+    call after call what the specification says of the bytes left -- any file content *)
+Theorem C18_pbcmpl_stream_any_file : forall kind f o count,
+  0 <= o <= 2^63 - 1 -> zlen f < 2^63 - 1 -> bytes_ok f ->
+  StreamAt kind f o count = Some (spec_stream_file count kind (skipn (Z.to_nat o) f)).
+Proof. exact PFS.StreamAt_spec. Qed.
+Print Assumptions C18_pbcmpl_stream_any_file.
+
+(** frames marshalled back to back from offset o ([PFS.chained]: each starts where the previous one
+    ends) are read back through one AtToReader(f', o), one frame per call, in order *)
+Theorem C18_pbcmpl_frames_as_stream : forall kind B ps f o,
+  kind = 0 \/ kind = 1 -> B < 2^63 - 1 -> 0 <= o <= 2^63 - 1 ->
+  Forall (fun p => 0 <= fst p /\ Proofs.PbcmplStream.msg_wf (snd p)) ps ->
+  Forall (fun p => PFF.place_end kind p <= B) ps ->
+  PFF.pairwise_clear kind ps -> PFS.chained kind o ps ->
+  bytes_ok f -> zlen f <= B ->
+  exists rs f',
+    marshal_all kind f ps = Some (rs, f')
+    /\ StreamAt kind f' o (length ps)
+       = Some (map (fun m => (32 + zlen (k_enc kind (snd m)), ver_of (fst m), @None perr, snd m)) (map snd ps)).
+Proof. exact PFS.marshal_all_stream. Qed.
+Print Assumptions C18_pbcmpl_frames_as_stream.
+
 (** non-vacuity: a BytesValue frame at 40 and a versioned one at 3 (written in that order) into a
     5-byte file; both read back; bytes 0..2 keep their value; reading at 4 (inside a frame) fails *)
 Example C18_pbcmpl_nonvacuous :
@@ -538,7 +580,9 @@ Example C18_pbcmpl_nonvacuous :
       rs = [(37, None); (32, None)] /\ firstn 3 f = [9;8;7] /\ zlen f = 77 /\
       unmarshal_all 1 f [40; 3; 4] =
         Some [(37, [49;46;48;46;48], None, [1;2;3]); (32, [49;46;50], None, []);
-              (32, [46;50;0;0;0;0;0;0;0;0;0;0;0;0;0;32], Some EInvalidHeaderSize, [])]
+              (32, [46;50;0;0;0;0;0;0;0;0;0;0;0;0;0;32], Some EInvalidHeaderSize, [])] /\
+      (* as a stream from 3: the versioned frame, then the 5 zero bytes of the gap read as a header *)
+      StreamAt 1 f 3 3 = Some [(32, [49;46;50], None, []); (32, [0;0;0;0;0;49;46;48;46;48], Some EInvalidHeaderSize, [])]
   | None => False
   end.
 Proof.
